@@ -45,6 +45,127 @@ def generate_all():
     return errs
 
 
+
+
+# ==========================================================================================
+# funfit.py -> Gen/Funfit.v
+# Accepted grammar (anything else raises TranslateError):
+#   def f(x, xy_0, xy_1[, alpha=<const>]):
+#       [docstring]
+#       x_0, y_0 = xy_0         (or (x_0, y_0) = xy_0)
+#       x_1, y_1 = xy_1
+#       return <expr>
+#   <expr> ::= name | number | <expr> (+|-|*|/) <expr> | -<expr> | (<expr>) ** alpha
+#            | g(x, xy_0, xy_1[, alpha])     with g an earlier function of the file
+# ==========================================================================================
+def _src(rel):
+    p = os.path.join(REPO, "src", "traffic_weaver", rel)
+    try:
+        return open(p).read()
+    except OSError as e:
+        raise TranslateError("cannot read %s: %s" % (rel, e))
+
+
+def _num(v):
+    from fractions import Fraction
+    fr = Fraction(v) if not isinstance(v, float) else Fraction(repr(v))
+    if fr == 0 or fr == 1:
+        return str(fr.numerator)
+    if fr.denominator == 1:
+        return "(qz %s)" % (fr.numerator if fr.numerator >= 0 else "(%d)" % fr.numerator)
+    return "(qf %s %d)" % (fr.numerator if fr.numerator >= 0 else "(%d)" % fr.numerator, fr.denominator)
+
+
+class _FunfitTr:
+    def __init__(self):
+        self.funs = {}   # name -> has_alpha
+
+    def expr(self, e, has_alpha, where):
+        def bad(msg):
+            raise TranslateError("funfit.py:%d: %s (%s)" % (getattr(e, "lineno", 0), msg, ast.dump(e)[:120]))
+        if isinstance(e, ast.Name):
+            if e.id in ("x", "x_0", "y_0", "x_1", "y_1"):
+                return e.id
+            bad("unexpected name")
+        if isinstance(e, ast.Constant) and isinstance(e.value, (int, float)) and not isinstance(e.value, bool):
+            return _num(e.value)
+        if isinstance(e, ast.UnaryOp) and isinstance(e.op, ast.USub):
+            return "(- %s)" % self.expr(e.operand, has_alpha, where)
+        if isinstance(e, ast.BinOp):
+            if isinstance(e.op, ast.Pow):
+                if not (has_alpha and isinstance(e.right, ast.Name) and e.right.id == "alpha"):
+                    bad("exponent must be the parameter alpha")
+                return "(pw %s)" % self.expr(e.left, has_alpha, where)
+            ops = {ast.Add: "+", ast.Sub: "-", ast.Mult: "*", ast.Div: "/"}
+            if type(e.op) not in ops:
+                bad("operator not accepted")
+            return "(%s %s %s)" % (self.expr(e.left, has_alpha, where), ops[type(e.op)], self.expr(e.right, has_alpha, where))
+        if isinstance(e, ast.Call) and isinstance(e.func, ast.Name) and e.func.id in self.funs and not e.keywords:
+            g = e.func.id
+            names = [a.id if isinstance(a, ast.Name) else None for a in e.args]
+            want = ["x", "xy_0", "xy_1"] + (["alpha"] if self.funs[g] else [])
+            if names != want:
+                bad("call arguments must be exactly %s" % want)
+            if self.funs[g] and not has_alpha:
+                bad("alpha not in scope")
+            return "(%s %sx x_0 y_0 x_1 y_1)" % (g, "pw " if self.funs[g] else "")
+        bad("construct outside the accepted grammar")
+
+    def fun(self, f):
+        args = [a.arg for a in f.args.args]
+        if args not in (["x", "xy_0", "xy_1"], ["x", "xy_0", "xy_1", "alpha"]) or f.args.vararg or f.args.kwarg or f.args.kwonlyargs:
+            raise TranslateError("funfit.py:%d: signature of %s not accepted: %s" % (f.lineno, f.name, args))
+        has_alpha = len(args) == 4
+        default = None
+        if has_alpha:
+            if len(f.args.defaults) != 1 or not isinstance(f.args.defaults[0], ast.Constant):
+                raise TranslateError("funfit.py:%d: alpha needs a constant default" % f.lineno)
+            default = f.args.defaults[0].value
+        elif f.args.defaults:
+            raise TranslateError("funfit.py:%d: unexpected defaults" % f.lineno)
+        body = list(f.body)
+        if body and isinstance(body[0], ast.Expr) and isinstance(body[0].value, ast.Constant) and isinstance(body[0].value.value, str):
+            body = body[1:]
+        if len(body) != 3:
+            raise TranslateError("funfit.py:%d: body of %s must be two unpackings and a return" % (f.lineno, f.name))
+        for st, (a, b, src) in zip(body[:2], [("x_0", "y_0", "xy_0"), ("x_1", "y_1", "xy_1")]):
+            ok = (isinstance(st, ast.Assign) and len(st.targets) == 1 and isinstance(st.targets[0], ast.Tuple)
+                  and [getattr(t, "id", None) for t in st.targets[0].elts] == [a, b]
+                  and isinstance(st.value, ast.Name) and st.value.id == src)
+            if not ok:
+                raise TranslateError("funfit.py:%d: expected `%s, %s = %s`" % (st.lineno, a, b, src))
+        if not isinstance(body[2], ast.Return) or body[2].value is None:
+            raise TranslateError("funfit.py:%d: expected return" % body[2].lineno)
+        e = self.expr(body[2].value, has_alpha, f.name)
+        self.funs[f.name] = has_alpha
+        sig = "(pw : Qc -> Qc) " if has_alpha else ""
+        out = "Definition %s %s(x x_0 y_0 x_1 y_1 : Qc) : Qc :=\n  %s.\n" % (f.name, sig, e)
+        if has_alpha:
+            out += "Definition %s_default_alpha : Qc := %s.\n" % (f.name, _num(default))
+        return out
+
+
+@target("Funfit")
+def gen_funfit():
+    tree = ast.parse(_src("funfit.py"))
+    tr = _FunfitTr()
+    parts = ["(** GENERATED by tools/translate.py from /repo/src/traffic_weaver/funfit.py — do not edit.\n"
+             "    `e ** alpha` is rendered as `pw e` (the power function is a parameter, DESIGN 3.3). *)\n"
+             "From TW Require Export Lib.Base.\nOpen Scope Qc_scope.\n"]
+    for node in tree.body:
+        if isinstance(node, ast.Expr) and isinstance(node.value, ast.Constant):
+            continue
+        if isinstance(node, ast.FunctionDef):
+            parts.append(tr.fun(node))
+        else:
+            raise TranslateError("funfit.py:%d: top-level statement not accepted" % node.lineno)
+    for need in ("lin_fit", "exp_fit", "exp_xy_fit", "exp_lin_fit", "lin_exp_xy_fit"):
+        if need not in tr.funs:
+            raise TranslateError("funfit.py: function %s is missing" % need)
+    return "\n".join(parts)
+
+
+# MAIN-BLOCK (keep last)
 if __name__ == "__main__":
     import sys
     es = generate_all()
